@@ -297,6 +297,9 @@ func (e *bndEngine) goalsFor(p *prover, ob bndOb) []bndGoal {
 				add(p.lenOf(a[0]).add(linConst(-1)), "argument is not empty")
 			case strings.HasPrefix(ob.Expr, "count>=0:"):
 				add(p.lin(a[1]), "count >= 0")
+			case strings.HasPrefix(ob.Expr, "grow:"):
+				add(p.lin(a[1]), "count >= 0")
+				add(linConst(1<<31-1).sub(p.lin(a[1])), "count bounded by a length that exists in memory (an unchecked number from the input can make the allocation fail)")
 			case strings.HasPrefix(ob.Expr, "range:"):
 				i, j := p.lin(a[1]), p.lin(a[2])
 				add(i, "i >= 0")
